@@ -4,6 +4,7 @@ package oned
 // expansion / suppression, parity tables, writers' acceptance of supplied check digits.
 
 import (
+	"github.com/makiuchi-d/gozxing"
 	zv "github.com/makiuchi-d/gozxing/zzverif"
 )
 
@@ -330,4 +331,141 @@ func VerifC10Ext5() {
 		zv.Assert(cd == w, "EAN-5 check value for the parity pattern")
 	}
 	zv.Reach("ext5")
+}
+
+// typed from the GS1 General Specifications: left-hand odd (L) and even (G) parity digit patterns
+var refLPatterns = [10]string{"0001101", "0011001", "0010011", "0111101", "0100011", "0110001", "0101111", "0111011", "0110111", "0001011"}
+var refGPatterns = [10]string{"0100111", "0110011", "0011011", "0100001", "0011101", "0111001", "0000101", "0010001", "0001001", "0010111"}
+
+// VerifC10Ext2: an EAN-2 add-on with free digits d1 d2 and a free parity choice (L or G) per digit,
+// rendered at scale modules per pixel: accepted iff the parity pattern encodes (10 d1 + d2) mod 4,
+// and then read as exactly those digits.
+func VerifC10Ext2(scale int) {
+	d1 := zv.Concrete(int(zv.IntRange(0, 9)))
+	d2 := zv.Concrete(int(zv.IntRange(0, 9)))
+	g1 := zv.Concrete(int(zv.IntRange(0, 1))) == 1 // concrete per path: the row must be concrete for the pattern matcher
+	g2 := zv.Concrete(int(zv.IntRange(0, 1))) == 1
+	mods := "0000001011" // quiet zone and add-on guard 1011
+	if g1 {
+		mods += refGPatterns[d1]
+	} else {
+		mods += refLPatterns[d1]
+	}
+	mods += "01" // delineator
+	if g2 {
+		mods += refGPatterns[d2]
+	} else {
+		mods += refLPatterns[d2]
+	}
+	mods += "000000"
+	row := gozxing.NewBitArray(len(mods) * scale)
+	for i := 0; i < len(mods); i++ {
+		if mods[i] == '1' {
+			for k := 0; k < scale; k++ {
+				row.Set(i*scale + k)
+			}
+		}
+	}
+	sup := NewUPCEANExtension2Support()
+	res, err := sup.decodeRow(0, row, []int{6 * scale, 10 * scale})
+	parity := 0
+	if g1 {
+		parity |= 2
+	}
+	if g2 {
+		parity |= 1
+	}
+	zv.Assert((err == nil) == ((10*d1+d2)%4 == parity), "EAN-2 add-on accepted iff the parity pattern encodes value mod 4")
+	if err == nil {
+		zv.Assert(res != nil && res.GetText() == string([]byte{byte('0' + d1), byte('0' + d2)}), "EAN-2 digits")
+	}
+	zv.Reach("ext2")
+}
+
+// the 47 Code 93 characters in value order (ISO/IEC... AIM BC5): digits, letters, - . space $ / + %, then
+// the four shift characters written a b c d here
+const refCode93Chars = "0123456789ABCDEFGHIJKLMNOPQRSTUVWXYZ-. $/+%abcd"
+
+// refCode93Check: sum of value * weight, weights 1..maxWeight from the right, cyclic, modulo 47.
+func refCode93Check(vals []int, maxWeight int) int {
+	total := 0
+	for i := len(vals) - 1; i >= 0; i-- {
+		w := (len(vals)-1-i)%maxWeight + 1
+		total += w * vals[i]
+	}
+	return total % 47
+}
+
+// VerifC10Code93: n free Code 93 characters (values concrete per path): the writer's C and K are
+// the standard's (weights cycling 1..20 and 1..15); the reader's check accepts data+C+K; replacing
+// the character at position pos of data+C+K (pos < 0: none) by any other character makes the check fail.
+func VerifC10Code93(n, pos int) {
+	vals := make([]int, n)
+	b := make([]byte, n)
+	for i := range vals {
+		vals[i] = zv.Concrete(int(zv.IntRange(0, 46)))
+		b[i] = refCode93Chars[vals[i]]
+	}
+	c := code93ComputeChecksumIndex(string(b), 20)
+	wantC := refCode93Check(vals, 20)
+	zv.Assert(c == wantC, "Code 93 check character C")
+	withC := append(append([]byte(nil), b...), refCode93Chars[wantC])
+	k := code93ComputeChecksumIndex(string(withC), 15)
+	wantK := refCode93Check(append(append([]int(nil), vals...), wantC), 15)
+	zv.Assert(k == wantK, "Code 93 check character K")
+	full := append(withC, refCode93Chars[wantK])
+	zv.Assert(code93CheckChecksums(full) == nil, "the reader accepts the standard's check characters")
+	if pos >= 0 {
+		s := zv.Concrete(int(zv.IntRange(0, 46)))
+		if refCode93Chars[s] != full[pos] {
+			bad := append([]byte(nil), full...)
+			bad[pos] = refCode93Chars[s]
+			zv.Assert(code93CheckChecksums(bad) != nil, "a single substituted character must fail the C/K check")
+		}
+	}
+	zv.Reach("code93")
+}
+
+// VerifC10Code128: the Code 128 symbol of a template, with the symbol character at index pos
+// (0 = start code, then data, then the check character) replaced by the pattern of a free other value:
+// DecodeRow reports an error or the original text — never a different text.
+func VerifC10Code128(tmpl, pos int) {
+	content := []string{"Ab1x23456z", "12345678", "\nAB\x02CD12"}[tmpl]
+	code, err := code128Encoder{}.encode(content)
+	zv.Assert(err == nil, "encode")
+	s := zv.Concrete(int(zv.IntRange(0, 105)))
+	// read the original value at pos from the modules, to skip the identity substitution
+	pat := code128CODE_PATTERNS[s]
+	sub := make([]bool, 0, 11)
+	black := true
+	for _, w := range pat {
+		for k := 0; k < w; k++ {
+			sub = append(sub, black)
+		}
+		black = !black
+	}
+	same := len(sub) == 11
+	for k := 0; k < 11 && same; k++ {
+		same = code[pos*11+k] == sub[k]
+	}
+	if same || len(sub) != 11 {
+		zv.Reach("code128-same")
+		return
+	}
+	row := gozxing.NewBitArray(len(code) + 40)
+	for k := range code {
+		v := code[k]
+		if k >= pos*11 && k < pos*11+11 {
+			v = sub[k-pos*11]
+		}
+		if v {
+			row.Set(20 + k)
+		}
+	}
+	res, e := NewCode128Reader().(RowDecoder).DecodeRow(0, row, nil)
+	zv.Assert((res != nil) != (e != nil), "result xor error")
+	if e == nil {
+		zv.Assert(res.GetText() == content, "a substituted symbol character must not be read as different text")
+	}
+	zv.Reach("code128")
 }
